@@ -106,7 +106,7 @@ def r01_1(ctx):
     fn, item_fn, r = codec.data_byte_domain(ctx)
     w = ctx.where(fn)
     if r is None:
-        ctx.fail('R01.1', 'domain(data)', w, 'check_data is not "for item in data: <item check>(item)"',
+        ctx.fail('R01.1', 'domain(data)', w, 'what check_data accepts cannot be established: it is not one item check applied to every item, and executed on lists (one value, one position at a time) it does not end the same way for the same items - or lets a bad item through',
                  construct=f'{fn.qname}::shape')
     else:
         ctx.require(r.accepted == IntSet.range(0, 127), 'R01.1', 'domain(data[i])', ctx.where(item_fn),
@@ -440,5 +440,14 @@ def r01_frozen(ctx):
     ctx.borrow(c15.r15_freeze_thaw, 'R01.8')
 
 
-RULES = [('R01.8', r01_frozen), ('R01.0', r01_0), ('R01.1', r01_1), ('R01.2', r01_2), ('R01.3', r01_3), ('R01.4', r01_4),
+def r01_refused(ctx):
+    """Every message the API hands out is a valid one - also after an assignment or a copy that was refused: the value is checked
+    before anything is stored, so what bytes() encodes afterwards is still inside the domains the codec is proved for (shared
+    with C03 R03.3)."""
+    from . import c03
+    ctx.borrow(c03.r03_3_setattr, 'R01.9')
+    ctx.borrow(c03.r03_3_copy, 'R01.9')
+
+
+RULES = [('R01.9', r01_refused), ('R01.8', r01_frozen), ('R01.0', r01_0), ('R01.1', r01_1), ('R01.2', r01_2), ('R01.3', r01_3), ('R01.4', r01_4),
          ('R01.5', r01_5), ('R01.6', r01_6)]
